@@ -57,6 +57,18 @@ func Y(label int32) {
 var TraceOn bool
 var Trace []int32
 
+// YO is an optional preemption point: it only exists for runs that ask for it
+// (Config.OptionalYields); for all other runs it costs nothing and is not counted.
+func YO(label int32) {
+	if active.Load() == 0 {
+		return
+	}
+	if !S.cfg.OptionalYields {
+		return
+	}
+	Y(label)
+}
+
 func tick(s *Sched, label int32) {
 	s.ticks++
 	s.lhash = (s.lhash ^ uint64(uint32(label))) * 1099511628211
